@@ -60,7 +60,18 @@ func (s *PFCPSession) CreatePDR(p pdr) {
 func (s *PFCPSession) UpdatePDR(p pdr) error {
 	for idx, v := range s.pdrs {
 		if v.pdrID == p.pdrID {
+			// An Update PDR names the TEID / UE address explicitly; remember that
+			// the UPF allocated them, or they are never released.
+			if v.UPAllocateFteid && p.tunnelTEID == v.tunnelTEID {
+				p.UPAllocateFteid = true
+			}
+
+			if v.allocIPFlag && p.ueAddress == v.ueAddress {
+				p.allocIPFlag = true
+			}
+
 			s.pdrs[idx] = p
+
 			return nil
 		}
 	}
